@@ -72,4 +72,103 @@ func init() {
 		WantProbes: []string{"drop", "duplicate", "reorder-delay", "retransmission-on-wire", "fec-parity-verified"},
 		nontrivial: func(r *proto.RunResult, nf int) bool { return r.Progress && (nf > 0 || r.Stratum == "clean") },
 	}
+	plans["C15"] = &propPlan{
+		Level: "exploration",
+		Items: []planItem{
+			{Scenario: "xfer", Stratum: "close", Quick: 700, Thorough: 25000},
+			{Scenario: "xfer", Stratum: "", Quick: 350, Thorough: 8000},
+		},
+		QuickBudget: 50 * time.Second, ThoroughBudget: 20 * time.Minute,
+		Rule: "one evaluation = one seeded simulated run ending in a full teardown (sessions, listener, transports closed in a seeded order; stratum 'close' additionally closes a seeded subset at a seeded instant in mid-transfer), followed by a 12 s grace period, one further hour of virtual time and a census of the bubble's goroutines; every pooled buffer of the run goes through the sanitizer (ownership, poison, quarantine). A run is non-trivial if payload reached a reader and either a fault fired or a mid-transfer Close was performed; distinct = distinct event-log hashes among those",
+		Real: realSession, Stub: stubSession, Assumptions: append([]string{"a buffer that is never recycled is not reported (the property forbids double recycling and use after recycling, not garbage)", "read-after-recycle is detected only when the poisoned bytes reach the wire decoder or a reader"}, assumeCommon...),
+		WantProbes: []string{"close-midway", "drop", "duplicate"},
+		nontrivial: func(r *proto.RunResult, nf int) bool { return r.Progress && nf > 0 },
+	}
+	plans["C02"] = &propPlan{
+		Level: "exploration",
+		Items: []planItem{
+			{Scenario: "core-enum", Stratum: "", Quick: 48, Thorough: 400, PerJob: 2},
+			{Scenario: "core", Stratum: "heal", Quick: 1500, Thorough: 60000, PerJob: 16},
+			{Scenario: "xfer", Stratum: "heal", Quick: 500, Thorough: 15000, PerJob: 8},
+		},
+		QuickBudget: 60 * time.Second, ThoroughBudget: 25 * time.Minute, CountCases: false,
+		Rule: "evaluations = seeded simulated runs. 'core-enum': one run = one drawn configuration of two raw cores x ALL 4^K assignments of {deliver, drop, duplicate, deliver-late} to the first K datagrams (K=4 quick, K=6 thorough; both directions, emission order), each followed by a fair network - enumerated_cases counts them. 'core/heal' and 'xfer/heal': seeded faults and, in half of the runs, a total outage (up to 10 virtual minutes) until a seeded instant, then a fair network; the writers stop when the network heals, and everything written must be read and both backlogs must be zero within an analytic budget (120 s probe back-off + (max retransmission count + 2) x 60 s + a stop-and-wait allowance per queued segment). Non-trivial = at least one fault fired and payload reached a reader; distinct = distinct event-log hashes among those",
+		Real: append([]string{"both ways of driving the core: session-style flush with the returned interval, and the public Update/Check loop"}, realSession...), Stub: stubSession,
+		Assumptions: append([]string{"liveness is judged only after the last fault, with readers that keep reading", "the budget is an analytic over-approximation, not a tuned constant; a run that exceeds it is reported with the stuck state", "in message mode the generator keeps fragments per message <= the peer's receive window (the raw core accepts larger messages that can never be delivered; see DESIGN.md)"}, assumeCommon...),
+		WantProbes:  []string{"drop", "duplicate", "deliver-late", "outage-drop", "retransmission-on-wire"},
+	}
+	plans["C04"] = &propPlan{
+		Level: "exploration",
+		Items: []planItem{
+			{Scenario: "core", Stratum: "", Quick: 2500, Thorough: 120000, PerJob: 32},
+			{Scenario: "core-forge", Stratum: "", Quick: 600, Thorough: 20000, PerJob: 16},
+			{Scenario: "xfer", Stratum: "", Quick: 400, Thorough: 10000, PerJob: 8},
+			{Scenario: "core", Stratum: "reopen", Quick: 40, Thorough: 400, PerJob: 8},
+		},
+		QuickBudget: 60 * time.Second, ThoroughBudget: 25 * time.Minute,
+		Rule: "evaluations = seeded simulated runs; after EVERY harness event (API call or processed datagram) the oracle reads queue occupancies through hook H1 and compares them with the windows the harness configured, compares the wnd field of every emitted segment (independent decoder) with the free space of the delivery queue at the end of that step, and checks that new sequence numbers reach the wire only within min(send window, last window delivered to this endpoint, congestion window at the start of the step + growth); 'core-forge' = a scripted adversary that ignores the window and forges sn/una/wnd/ts/len. Non-trivial = fault fired (or forgery accepted) and progress; distinct = distinct event-log hashes",
+		Real: realCore, Stub: stubCore,
+		Assumptions: append([]string{"window sizes are set before traffic starts (accepted sessions are held to max(default 32, configured) because they live with the default until Accept returns)", "the congestion-window part of the admission bound reads cwnd through hook H1 (it is not visible on the wire) and allows the growth of at most 2 segments that processing one datagram's acknowledgements can cause", "finding recorded in known_findings.txt: a fast/early retransmission after a timeout loss re-opens the congestion window (cwnd = ssthresh + resend); counted as a probe here, reported by stratum core/reopen"}, assumeCommon...),
+		WantProbes:  []string{"rcv-queue-full", "zero-window-advertised", "timeout-loss-counted", "forgery-accepted"},
+		nontrivial:  func(r *proto.RunResult, nf int) bool { return r.Progress && nf > 0 },
+	}
+	plans["C05"] = &propPlan{
+		Level: "exploration",
+		Items: []planItem{
+			{Scenario: "core-forge", Stratum: "", Quick: 1500, Thorough: 60000, PerJob: 16},
+			{Scenario: "core", Stratum: "", Quick: 600, Thorough: 20000, PerJob: 32},
+			{Scenario: "xfer", Stratum: "", Quick: 300, Thorough: 8000, PerJob: 8},
+		},
+		QuickBudget: 60 * time.Second, ThoroughBudget: 25 * time.Minute,
+		Rule: "evaluations = seeded simulated runs, each feeding hundreds to thousands of generated datagrams (noise; truncations; structurally valid segments with every header field forged: cmd, frg, wnd, ts, sn, una around/outside/far from the windows and across the wrap, len lying about the remainder, lengths up to 64 KiB for the raw core) into a live core with outstanding data of its own; a library panic on any goroutine, occupancy beyond the C04 limits, or pooled buffers held beyond the windows is a violation. Non-trivial = at least one forgery was accepted by the core; distinct = distinct event-log hashes",
+		Real: realCore, Stub: stubCore,
+		Assumptions: append([]string{"this is datagram-content fault injection inside the simulation, as strong as its mutation grammar; it is not coverage-guided fuzzing", "'allocate without bound' is decided by counting pooled buffers held (sanitizer) and the pending-acknowledgement list against window-derived limits, not by measuring the Go heap"}, assumeCommon...),
+		WantProbes:  []string{"forged-datagram", "forgery-accepted", "forgery-rejected", "rcv-queue-full"},
+		nontrivial:  func(r *proto.RunResult, nf int) bool { return r.Progress },
+	}
+	plans["C09"] = &propPlan{
+		Level: "exploration",
+		Items: []planItem{
+			{Scenario: "xfer", Stratum: "", Quick: 900, Thorough: 30000},
+			{Scenario: "xfer", Stratum: "close", Quick: 200, Thorough: 5000},
+		},
+		QuickBudget: 50 * time.Second, ThoroughBudget: 20 * time.Minute,
+		Rule: "evaluations = seeded simulated runs; EVERY datagram handed to the simulated PacketConn in every run (first transmissions, retransmissions, ACK-only, probes, parity, after Close) is parsed by the independent decoder (README layout, crypto/cipher CFB / salsa20 / xor / AEAD, CRC32 over everything after the CRC field, FEC header, size field, 24-byte little-endian KCP headers filling the datagram exactly); FEC ids must advance by one (by parity count when parity is skipped) and agree with the type; parity must equal the Reed-Solomon code the harness computes with klauspost/reedsolomon over its own zero-padded copies; nonces and whole datagrams must never repeat; and the byte stream reassembled from the wire alone (by sn) must equal what was written. Non-trivial = fault fired and payload reached a reader; distinct = distinct event-log hashes",
+		Real: realSession, Stub: stubSession,
+		Assumptions: append([]string{"the fixed IV and the XOR salt are protocol constants copied into the decoder as data", "OOB packets are covered by the C19 scenario's runs of the same oracle"}, assumeCommon...),
+		WantProbes:  []string{"fec-parity-verified", "fec-parity-skipped", "retransmission-on-wire", "emit-probe", "emit-ack"},
+	}
+	plans["C18"] = &propPlan{
+		Level: "exploration",
+		Items: []planItem{
+			{Scenario: "core", Stratum: "clean", Quick: 2500, Thorough: 100000, PerJob: 32},
+			{Scenario: "xfer", Stratum: "clean18", Quick: 500, Thorough: 15000, PerJob: 8},
+			{Scenario: "core-forge", Stratum: "acks", Quick: 500, Thorough: 20000, PerJob: 16},
+			{Scenario: "core", Stratum: "", Quick: 600, Thorough: 20000, PerJob: 32},
+			{Scenario: "xfer", Stratum: "", Quick: 250, Thorough: 6000, PerJob: 8},
+		},
+		QuickBudget: 60 * time.Second, ThoroughBudget: 25 * time.Minute,
+		Rule: "evaluations = seeded simulated runs. Clean-path strata ('core/clean', 'xfer/clean18'): FIFO links with a constant one-way delay D drawn so that 2D + the peer's acknowledgement delay + 3 ms < the sender's minimum RTO, window precondition enforced, readers keep up; every data sn must appear exactly once per direction on the wire (independent decoder) and the library's retransmission counters must stay 0. Bound half: in EVERY run of every stratum (including 'core-forge/acks', an adversary acknowledging with forged, wrapped and delayed timestamps and long silences) the RTO is read after every step and must lie in [30 or 100 by configured mode, 60000]. Non-trivial = the run delivered payload (clean strata) or a fault/forgery fired; distinct = distinct event-log hashes",
+		Real: append([]string{"both ways of driving the core"}, realSession...), Stub: stubSession,
+		Assumptions: append([]string{"the 3 ms margin covers the two millisecond truncations of the core clock and the nanoseconds added by hook H3"}, assumeCommon...),
+		WantProbes:  []string{"forgery-accepted"},
+		nontrivial:  func(r *proto.RunResult, nf int) bool { return r.Progress },
+	}
+	plans["C10"] = &propPlan{
+		Level: "exploration",
+		Items: []planItem{
+			{Scenario: "core-mtu", Stratum: "", Quick: 1200, Thorough: 50000, PerJob: 32},
+			{Scenario: "core-mtu", Stratum: "initial", Quick: 400, Thorough: 10000, PerJob: 32},
+			{Scenario: "sess-mtu", Stratum: "", Quick: 500, Thorough: 15000, PerJob: 8},
+			{Scenario: "sess-mtu", Stratum: "initial", Quick: 250, Thorough: 6000, PerJob: 8},
+			{Scenario: "sess-mtu", Stratum: "parity-straddle", Quick: 60, Thorough: 600, PerJob: 8},
+			{Scenario: "xfer", Stratum: "", Quick: 250, Thorough: 6000, PerJob: 8},
+		},
+		QuickBudget: 60 * time.Second, ThoroughBudget: 25 * time.Minute,
+		Rule: "evaluations = seeded simulated runs. 'core-mtu': raw cores, KCP.SetMtu with any int (negative, 0, around the header size, 50..1500, above the packet-buffer size, huge) before traffic ('initial') or at seeded points during traffic with data queued and in flight; every size handed to the output callback must be in (0, MTU in force], a refused value leaves the previous MTU in force, and a library panic is a violation. 'sess-mtu': the same at session level under every cipher/FEC overhead combination, with OOB sent at GetOOBMaxSize(), +1 and -1; every datagram handed to the simulated PacketConn is measured against the MTU in force (datagrams already queued for post-processing at the moment of the call are still allowed the old MTU). A worker-process crash is attributed to its run through the journal. Non-trivial = at least one SetMtu was accepted in the run and payload was delivered; distinct = distinct event-log hashes",
+		Real: realSession, Stub: stubSession,
+		Assumptions: append([]string{"finding recorded in known_findings.txt: FEC parity of a group that straddles an MTU reduction exceeds the new MTU; stratum 'parity-straddle' provokes and reports it, the other strata count it as a probe and continue"}, assumeCommon...),
+		WantProbes: []string{"setmtu-accepted", "setmtu-refused", "setmtu-shrink-with-data-queued", "setmtu-accepted-above-buffer-size", "oob-sent-at-max"},
+		nontrivial: func(r *proto.RunResult, nf int) bool { return r.Progress && (r.Probes["setmtu-accepted"] > 0 || r.Scenario == "xfer") },
+	}
 }
